@@ -17,7 +17,9 @@
     - premises ([run_ok]): files have project-relative paths, [report_unfixed] lines are >= 0, and the changesets returned by the
       dependency writers are well formed (oracle contract of C14's writers, tested); [strict] validators are a premise of the
       laws and are established for the extracted validators by [C15_validators].
-    Statements indexed by a table value have a positive branch (the law) and a negative branch (a computed witness). *)
+    Statements indexed by a table value have a positive branch (the law) and a negative branch (a computed witness).
+    Properties/C15_positive.v shows that the positive branches are the ones taken on the current source ([strict the_validators],
+    [good_pipe the_tables …]) and instantiates the laws there ([C15_here]). *)
 From CM Require Import Model.Report Model.ReportTables Spec.ReportSpec Proofs.ReportSchemaFacts Proofs.ReportFacts
      Proofs.ReportTheorems Generated.Tables.
 
@@ -101,6 +103,14 @@ Print Assumptions C15_failed_line0_allowed.
 Theorem C15_xml_description_none : xml_statement report_xml_apply.
 Proof. exact (xml_all report_xml_apply). Qed.
 Print Assumptions C15_xml_description_none.
+
+(** Regex pipeline (public API, no shipped codemod uses it): with the failure handling of the repaired tree no file can abort
+    the run; on the pinned tree an undecodable file or an empty [change_description] aborts it and no report is written
+    ([report_opt = None]: outside C15's quantifier).  Its changesets are covered by [C15_changesets_wellformed] /
+    [C15_schema_ok] through [run_ok] (premise [file_pre]: difflib yields a non-empty diff when a line was rewritten). *)
+Theorem C15_regex_pipeline : regex_statement report_regex_apply.
+Proof. exact (regex_all report_regex_apply). Qed.
+Print Assumptions C15_regex_pipeline.
 
 (** Non-vacuity: a run with two codemods (one SAST), a changed, an unchanged and a failed file, a dependency written to a
     manifest; the premises of the laws hold and the report is the expected one. *)
